@@ -1,0 +1,29 @@
+//go:build verif
+
+package auth
+
+import "errors"
+
+// This file is compiled only with `-tags verif`. It gives the verification harness in /verif
+// a fault-injection point for the password-file save and read access to the account list;
+// it adds nothing to the normal build.
+
+// ErrVerifInjectedSave is what the injected failing save returns.
+var ErrVerifInjectedSave = errors.New("verif: injected save failure")
+
+// VerifSetSaveFail replaces a.saveFile: while fail is true every save returns an error without touching
+// the file (the same substitution grpc_handler_test.go makes); otherwise the real saveFileHandler runs.
+func (a *Auth) VerifSetSaveFail(fail bool) {
+	a.mu.Lock()
+	defer a.mu.Unlock()
+	if fail {
+		a.saveFile = func() error { return ErrVerifInjectedSave }
+	} else {
+		a.saveFile = a.saveFileHandler
+	}
+}
+
+// VerifValidate forwards to validate (the decision OnBasicAuthWrapper takes).
+func (a *Auth) VerifValidate(username, password string) (bool, error) {
+	return a.validate(username, password)
+}
